@@ -189,7 +189,8 @@ fn run_once(p: &Arc<Program>, oracle: &Oracle, col: &Collector, bound: u32, samp
                     if w < 0 || w > cw.get_max_weight() {
                         let mut h = hits.lock().unwrap();
                         if h.is_empty() {
-                            h.push(format!("weight_used={} outside [0,{}] at tick {}", w, cw.get_max_weight(), explore::tick()));
+                            let during = world::with(|w| w.events.iter().rev().find(|e| e.kind == "worker_dequeued").map(|e| e.text.clone()).unwrap_or_default());
+                            h.push(format!("weight_used={} outside [0,{}] at tick {} during={}", w, cw.get_max_weight(), explore::tick(), during));
                         }
                     }
                 }
